@@ -1,0 +1,71 @@
+//go:build verif
+
+package keeper
+
+// Contracts for the deductive checker in /verif (comment-only; compiled only with -tags verif).
+// C08, the delegation guard: unvested coins cannot be delegated. Account-level specification functions (ValidCVA,
+// VestedAt) are in x/vesting/types/zz_contracts_verif.go; the expected keepers (account store read, bank balance read,
+// bond denom) have assumed contracts in /verif/specs/c08g/60_guards.spec.
+
+/*@
+alias CVA github.com/haqq-network/haqq/x/vesting/types.ClawbackVestingAccount
+alias MsgSrv github.com/haqq-network/haqq/x/staking/keeper.msgServer
+
+// what a clawback vesting account may delegate of denom d at time t: its balance minus its unvested coins, at least 0
+specfunc Delegatable(bal int, va CVA, t int, d string) int = imax(0, bal - csub(va.OriginalVesting, VestedAt(va, t))[d])
+
+// C08: nil for a clawback vesting account only if amount <= max(0, balance - unvested[bondDenom])
+func (msgServer).validateDelegationAmountNotUnvested
+    let ctx = ctx_unwrap(goCtx)
+    let addr = addr_of_bech32(delegatorAddress)
+    let acc = sk_account(k.ak, ctx, addr)
+    let d = sk_bonddenom(*k.Keeper.Keeper, ctx)
+    requires keeper: k.Keeper != nil && k.Keeper.Keeper != nil && k.ak != nil && k.bk != nil
+    ensures bound: result == nil && isdyn(acc, *CVA)
+            ==> amount <= Delegatable(bank_bal[addr][d], *dyn(acc, *CVA), time_unix(ctx_blocktime(ctx)), d)
+    ensures known: result == nil ==> acc != nil
+    // (design level, from the code comments, not from the property statement) the guard is exact: vested coins - locked
+    // or not - and free coins can be delegated; other account types are not restricted
+    ensures exact: ret(AccAddressFromBech32, 1, 1) == nil && acc != nil
+            && (isdyn(acc, *CVA) ==> amount <= Delegatable(bank_bal[addr][d], *dyn(acc, *CVA), time_unix(ctx_blocktime(ctx)), d))
+            ==> result == nil
+
+// C08: the embedded SDK message server runs only after the guard accepted the delegator / amount of this very message, on
+// the unchanged state and with the same context and message; a delegation above the delegatable amount is rejected
+// without any effect on balances or accounts.
+func (msgServer).Delegate
+    let ctx = ctx_unwrap(goCtx)
+    let addr = addr_of_bech32(msg.DelegatorAddress)
+    let acc = sk_account(k.ak, ctx, addr)
+    let d = sk_bonddenom(*k.Keeper.Keeper, ctx)
+    let okAmt = isdyn(acc, *CVA) ==> msg.Amount.Amount <= Delegatable(bank_bal[addr][d], *dyn(acc, *CVA), time_unix(ctx_blocktime(ctx)), d)
+    requires keeper: k.Keeper != nil && k.Keeper.Keeper != nil && k.ak != nil && k.bk != nil && k.MsgServer != nil && msg != nil
+    modifies bank_bal, bank_supply, auth_accs
+    allow frame     // the embedded server is unknown code: it may write any object reachable from the message
+    call Delegate requires validated: okAmt
+    call Delegate requires same: recv == k.MsgServer && p0 == goCtx && p1 == msg && *msg == old(*msg)
+            && bank_bal == old(bank_bal) && auth_accs == old(auth_accs) && bank_supply == old(bank_supply)
+    ensures rejected: old(!(okAmt)) ==> result.1 != nil && bank_bal == old(bank_bal) && auth_accs == old(auth_accs) && bank_supply == old(bank_supply)
+
+func (msgServer).CreateValidator
+    let ctx = ctx_unwrap(goCtx)
+    let addr = addr_of_bech32(msg.DelegatorAddress)
+    let acc = sk_account(k.ak, ctx, addr)
+    let d = sk_bonddenom(*k.Keeper.Keeper, ctx)
+    let okAmt = isdyn(acc, *CVA) ==> msg.Value.Amount <= Delegatable(bank_bal[addr][d], *dyn(acc, *CVA), time_unix(ctx_blocktime(ctx)), d)
+    requires keeper: k.Keeper != nil && k.Keeper.Keeper != nil && k.ak != nil && k.bk != nil && k.MsgServer != nil && msg != nil
+    modifies bank_bal, bank_supply, auth_accs
+    allow frame
+    call CreateValidator requires validated: okAmt
+    call CreateValidator requires same: recv == k.MsgServer && p0 == goCtx && p1 == msg && *msg == old(*msg)
+            && bank_bal == old(bank_bal) && auth_accs == old(auth_accs) && bank_supply == old(bank_supply)
+    ensures rejected: old(!(okAmt)) ==> result.1 != nil && bank_bal == old(bank_bal) && auth_accs == old(auth_accs) && bank_supply == old(bank_supply)
+
+// C08: the staking message server handed to the message router, to authz (MsgExec dispatches through the router) and to the
+// staking precompile (precompiles/staking: stakingkeeper.NewMsgServerImpl(&p.stakingKeeper)) is the guarded wrapper around
+// the SDK server of the same keeper - not the SDK server itself.
+func NewMsgServerImpl
+    requires keeper: keeper != nil
+    ensures wrapper: isdyn(result, *MsgSrv) && dyn(result, *MsgSrv) != nil && dyn(result, *MsgSrv).Keeper == keeper
+            && dyn(result, *MsgSrv).MsgServer == sdk_staking_msgserver(keeper.Keeper)
+@*/
